@@ -17,7 +17,11 @@
                                  the shape in which Proofs/SegmentEntropy.v states mi_cell / mi (which cells enter, the
                                  un-normalised count under the first log, N = np.sum(contingency))
      mutual_info_score_tie       the same with contingency=None (table from _contingency_matrix, ValueError on unequal lengths)
-   Callees are bound through the signatures read from the source in the same run (core_sigs). *)
+   Callees are bound through the signatures read from the source in the same run (core_sigs).  The *_tie_gen theorems hold for every
+   [ext] that answers _contingency_matrix as the model does ([ext_ok]); *_tie instantiate it by the model ([core_ext]), *_tie_prog by
+   the TRANSLATED _contingency_matrix itself ([prog_ext], through contingency_matrix_tie), so the chain
+   _adjusted_rand_index / _mutual_info_score -> _contingency_matrix is closed over the generated programs.
+   Proofs/CoreFuncsAmiTie.v: the summation limits of the AMI; Proofs/CoreFuncsSegR.v: the float terms read in R = SegmentEntropy.mi / entropy. *)
 From Coq Require Import String.
 From Coq Require Import List Bool Arith ZArith QArith Lia Lqa.
 From ME Require Import Model.Prelude Model.SegExp Gen.CoreFuncsGen.
@@ -35,7 +39,12 @@ Definition core_ext (f : string) (vs : list sv) : out sv :=
     match vs with [VNs a; VNs b] => lift_tab (length (SC.uniq b)) (SC.contingency a b) | _ => UNM end
   else UNM.
 Local Close Scope string_scope.
-Definition run (f : fdef) (args : list sv) : out sv := run_fun core_sigs core_ext f args.
+(* a run with the callees given by [ext]; [run] = the callee _contingency_matrix is the model's function *)
+Definition runx (ext : string -> list sv -> out sv) (f : fdef) (args : list sv) : out sv := run_fun core_sigs ext f args.
+Definition run (f : fdef) (args : list sv) : out sv := runx core_ext f args.
+(* what the ties need of the callees: _contingency_matrix answers as the model does on index arrays *)
+Definition ext_ok (ext : string -> list sv -> out sv) : Prop :=
+  forall a b, ext "_contingency_matrix"%string [VNs a; VNs b] = lift_tab (length (SC.uniq b)) (SC.contingency a b).
 
 Lemma zn_eqb a b : (Z.of_nat a =? Z.of_nat b)%Z = Nat.eqb a b.
 Proof. destruct (Nat.eqb a b) eqn:E; [apply Nat.eqb_eq in E; subst; apply Z.eqb_refl|]. apply Nat.eqb_neq in E. apply Z.eqb_neq. lia. Qed.
@@ -63,10 +72,10 @@ Proof.
   apply Nat.ltb_lt. apply class_idx_lt. apply SP.In_uniq. exact Hx.
 Qed.
 
-Theorem contingency_matrix_tie : forall yr ye,
-  run gen_contingency_matrix [VNs yr; VNs ye] = lift_tab (length (SC.uniq ye)) (SC.contingency yr ye).
+Theorem contingency_matrix_tie : forall ext yr ye,
+  runx ext gen_contingency_matrix [VNs yr; VNs ye] = lift_tab (length (SC.uniq ye)) (SC.contingency yr ye).
 Proof.
-  intros. unfold run, run_fun. cbn. rewrite zleb0, Nat2Z.id. cbn. rewrite !zltb0. cbn [orb]. rewrite mapo_ones, !Nat2Z.id.
+  intros. unfold runx, run_fun. cbn. rewrite zleb0, Nat2Z.id. cbn. rewrite !zltb0. cbn [orb]. rewrite mapo_ones, !Nat2Z.id.
   unfold coo_toarray, SC.contingency. rewrite repeat_length, !map_length, Nat.eqb_refl. cbn [andb].
   destruct (length yr =? length ye)%nat eqn:E; cbn [negb]; [|reflexivity].
   rewrite !class_range. cbn [andb negb obind lift_e lift_tab]. unfold SC.contingency_tab.
@@ -88,7 +97,7 @@ Arguments SC.nsum : simpl never.
 Arguments SC.uniq : simpl never.
 Arguments SC.contingency_tab : simpl never.
 Ltac open_fun g :=
-  unfold run, run_fun, exec_block;
+  unfold run, runx, run_fun, exec_block;
   (let b := eval cbv [f_body g] in (f_body g) in change (f_body g) with b);
   (let p := eval cbv [f_params g length] in (length (f_params g)) in change (length (f_params g)) with p);
   cbn [length Nat.eqb];
@@ -127,10 +136,10 @@ Qed.
 Definition out_q (o : out sv) (r : res Q) : Prop :=
   match o, r with OK (VFlt true (FQ q)), Ok q' => q == q' | EXN e, Raise e' => e = e' | _, _ => False end.
 
-Theorem adjusted_rand_index_tie : forall yr ye,
-  out_q (run gen_adjusted_rand_index [VNs yr; VNs ye]) (SC.ari_idx yr ye).
+Theorem adjusted_rand_index_tie_gen : forall ext, ext_ok ext -> forall yr ye,
+  out_q (runx ext gen_adjusted_rand_index [VNs yr; VNs ye]) (SC.ari_idx yr ye).
 Proof.
-  intros. open_fun gen_adjusted_rand_index. unfold SC.ari_idx.
+  intros ext Hext yr ye. open_fun gen_adjusted_rand_index. unfold SC.ari_idx.
   step. step. step.
   rewrite rb_cons.
   match goal with |- context [exec ?sg ?ex ?s ?en] =>
@@ -141,7 +150,7 @@ Proof.
       destruct (length (SC.uniq ye) =? 0)%nat; destruct (length (SC.uniq ye) =? length yr)%nat; reflexivity. }
   rewrite Hif. clear Hif.
   destruct (SC.ari_special _ _ _) eqn:Esp; [cbn; reflexivity|].
-  step. rewrite ext_cont. unfold SC.contingency. destruct (length yr =? length ye)%nat eqn:Elen; cbn [lift_tab lift_e bind]; cbv beta iota;
+  step. rewrite (Hext _ _). unfold SC.contingency. destruct (length yr =? length ye)%nat eqn:Elen; cbn [lift_tab lift_e bind]; cbv beta iota;
     [|cbn; reflexivity].
   sum_step. sum_step. sum_step. rewrite !Z.add_0_l.
   set (A := SC.nsum (map SC.comb2 (SC.row_sums (SC.contingency_tab yr ye)))).
@@ -164,6 +173,9 @@ Proof.
       rewrite HD2, HX; reflexivity
   end.
 Qed.
+Theorem adjusted_rand_index_tie : forall yr ye,
+  out_q (run gen_adjusted_rand_index [VNs yr; VNs ye]) (SC.ari_idx yr ye).
+Proof. exact (adjusted_rand_index_tie_gen core_ext ext_cont). Qed.
 Print Assumptions adjusted_rand_index_tie.
 
 (* ================================================================== _entropy *)
@@ -210,7 +222,7 @@ Qed.
 Lemma zn_eqb0 a : (Z.of_nat a =? 0)%Z = Nat.eqb a 0. Proof. exact (zn_eqb a 0). Qed.
 Ltac step_open := rewrite rb_cons; match goal with |- context [run_block ?f ?r] => let K := fresh "K" in let HK := fresh "HK" in remember (run_block f r) as K eqn:HK end; cbn.
 Ltac step_close := match goal with HK : ?K = run_block _ _ |- _ => subst K end; cbv beta iota.
-Theorem entropy_tie : forall y, run gen_entropy [VNs y] = OK (entropy_val y).
+Theorem entropy_tie : forall ext y, runx ext gen_entropy [VNs y] = OK (entropy_val y).
 Proof.
   intros. open_fun gen_entropy. unfold entropy_val.
   step. rewrite zn_eqb0.
@@ -307,10 +319,10 @@ Proof.
   - specialize (IH Hin). assert (0 <= nQ x) by apply (SP.nQ_nonneg x). specialize (Hge l). unfold qsumr in *. lra.
 Qed.
 
-Theorem mutual_info_score_tab_tie : forall a b c tab, rect c tab ->
-  run gen_mutual_info_score [a; b; VFss c (map (map fnat) tab)] = OK (VFlt false (mi_val c tab)).
+Theorem mutual_info_score_tab_tie : forall ext a b c tab, rect c tab ->
+  runx ext gen_mutual_info_score [a; b; VFss c (map (map fnat) tab)] = OK (VFlt false (mi_val c tab)).
 Proof.
-  intros a b c tab Hrect. open_fun gen_mutual_info_score.
+  intros ext a b c tab Hrect. open_fun gen_mutual_info_score.
   step.
   step. rewrite concat_map_map, fsum_fnat. set (N := qsumr (map nQ (concat tab))).
   step. rewrite rowF. step. rewrite colF. step. rewrite outerF, map_length, colQ_length.
@@ -354,16 +366,34 @@ Proof.
 Qed.
 Definition lift_fl (r : res fl) : out sv := match r with Ok x => OK (VFlt false x) | Raise e => EXN e end.
 (* contingency=None: the table is computed by _contingency_matrix (ValueError on unequal lengths) and cast to float *)
+Theorem mutual_info_score_tie_gen : forall ext, ext_ok ext -> forall yr ye,
+  runx ext gen_mutual_info_score [VNs yr; VNs ye; VNone]
+  = lift_fl (match SC.contingency yr ye with Ok tab => Ok (mi_val (length (SC.uniq ye)) tab) | Raise e => Raise e end).
+Proof.
+  intros ext Hext yr ye. open_fun gen_mutual_info_score.
+  step. rewrite (Hext _ _). unfold SC.contingency. destruct (length yr =? length ye)%nat eqn:Elen; cbn [lift_tab lift_fl obind meth]; [|reflexivity].
+  cbn. etransitivity; [|apply (mutual_info_score_tab_tie ext (VNs yr) (VNs ye) _ _ (contingency_tab_rect yr ye))].
+  symmetry. open_fun gen_mutual_info_score. step. reflexivity.
+Qed.
 Theorem mutual_info_score_tie : forall yr ye,
   run gen_mutual_info_score [VNs yr; VNs ye; VNone]
   = lift_fl (match SC.contingency yr ye with Ok tab => Ok (mi_val (length (SC.uniq ye)) tab) | Raise e => Raise e end).
-Proof.
-  intros. open_fun gen_mutual_info_score.
-  step. rewrite ext_cont. unfold SC.contingency. destruct (length yr =? length ye)%nat eqn:Elen; cbn [lift_tab lift_fl obind meth]; [|reflexivity].
-  cbn. etransitivity; [|apply (mutual_info_score_tab_tie (VNs yr) (VNs ye) _ _ (contingency_tab_rect yr ye))].
-  symmetry. open_fun gen_mutual_info_score. step. reflexivity.
-Qed.
+Proof. exact (mutual_info_score_tie_gen core_ext ext_cont). Qed.
 Print Assumptions mutual_info_score_tie.
+
+(* the chain closed over the TRANSLATED callee: _contingency_matrix is the generated program itself *)
+Definition prog_ext (f : string) (vs : list sv) : out sv :=
+  if String.eqb f "_contingency_matrix" then runx (fun _ _ => UNM) gen_contingency_matrix vs else UNM.
+Lemma prog_ext_ok : ext_ok prog_ext.
+Proof. intros a b. unfold prog_ext. cbn [String.eqb Ascii.eqb Bool.eqb]. apply contingency_matrix_tie. Qed.
+Theorem adjusted_rand_index_tie_prog : forall yr ye,
+  out_q (runx prog_ext gen_adjusted_rand_index [VNs yr; VNs ye]) (SC.ari_idx yr ye).
+Proof. exact (adjusted_rand_index_tie_gen prog_ext prog_ext_ok). Qed.
+Theorem mutual_info_score_tie_prog : forall yr ye,
+  runx prog_ext gen_mutual_info_score [VNs yr; VNs ye; VNone]
+  = lift_fl (match SC.contingency yr ye with Ok tab => Ok (mi_val (length (SC.uniq ye)) tab) | Raise e => Raise e end).
+Proof. exact (mutual_info_score_tie_gen prog_ext prog_ext_ok). Qed.
+Print Assumptions adjusted_rand_index_tie_prog.
 
 (* ================================================================== pos_counts = the model's class_counts *)
 Local Open Scope nat_scope.
